@@ -60,8 +60,9 @@ ID = "C04"
 LEVEL = "other"
 TECHNIQUE = "structural obligations proved on the real reversible_fdtd closures (recording stubs for jax.vjp/custom_vjp, while rule for the forward segments and the reverse loop, symbolic T); AD semantics and the chain rule assumed; gradient mismatch reproduced on real JAX by replay"
 MODULES = P5.MODULES + ["fdtdx.fdtd.backward"]
-FILES = ["src/fdtdx/fdtd/fdtd.py", "src/fdtdx/fdtd/forward.py", "src/fdtdx/fdtd/backward.py", "src/fdtdx/fdtd/wrapper.py"]
+FILES = ["src/fdtdx/fdtd/fdtd.py", "src/fdtdx/fdtd/forward.py", "src/fdtdx/fdtd/backward.py", "src/fdtdx/fdtd/wrapper.py", "src/fdtdx/fdtd/update.py"]
 FUNCTIONS = [
+    "fdtdx.fdtd.update.update_E/update_H/update_E_reverse/update_H_reverse with sources (tasks reconstruction(C02)/*: C02's source lemmas re-proved under this property)",
     "fdtdx.fdtd.fdtd.reversible_fdtd (fdtd_fwd, fdtd_bwd, body_fn, reverse_body, cond_fun, segmented_forward, reversible_fdtd_primal)",
     "fdtdx.fdtd.forward.forward_single_args_wrapper",
     "fdtdx.fdtd.backward.backward (step counter, flag semantics)",
@@ -514,6 +515,15 @@ def tasks(tier, seed):
         out[f"reversible/k{k}"] = Task(_reversible(k))
     for Tk in (2, 3, 4) if tier == "quick" else range(2, 7):
         out[f"lossy/checkpoint_every_step/T{Tk}"] = Task(_reversible(Tk, T_concrete=Tk))
+    # reconstruction premise: the state the per-step VJP is taken at is backward(state_{t+1}); that it equals the
+    # primal state_t is C02's contract.  Its source-carrying lemmas (update_E/H_reverse undo update_E/H incl.
+    # gated and H-injecting sources) are re-proved here on the same real code, so that a change that breaks
+    # the reconstruction - and with it the gradient - fails under this property as well.
+    import props.C02 as P2
+
+    for k, t in P2.tasks(tier, seed).items():
+        if k.startswith("src/") or k == "compose/with_sources":
+            out[f"reconstruction(C02)/{k}"] = Task(t.body, modules=P2.MODULES, max_paths=t.max_paths)
     return out
 
 
@@ -574,6 +584,14 @@ def _grad(g):
 
 
 def replay(key, obligation, witness):
+    if key.startswith("reconstruction(C02)/"):
+        import props.C02 as P2
+
+        return P2.replay(key.split("/", 1)[1], obligation, witness)
+    return _replay_gradients(key, obligation, witness)
+
+
+def _replay_gradients(key, obligation, witness):
     """real run_fdtd under jax.value_and_grad: reversible (no interior checkpoints, lossless recording)
     vs exact checkpointed autodiff; scalar loss = random weights on the EnergyDetector output; Gaussian-pulse
     plane source in a lossless periodic box; gradient w.r.t. the inverse permittivity at every cell"""
